@@ -116,7 +116,7 @@ func (g *depGraph) oracle(cur string) (blocked map[string]bool, isErr bool) {
 
 func c15(c *Ctx) {
 	nSteps := c.N(3, 4)
-	c.Rule = fmt.Sprintf("exhaustive: all 2^%d dependency graphs over %d steps (self-loops and cycles included) x 2 orders of each `_dependencies` list x every current step (and `input`) x every root field as target x 4 positions of the read (head, filter, function argument, nested group); dangling dependencies and steps without a list; random graphs of up to 12 steps (chains, diamonds, fan-in, cycles). Verdicts compared with the model of getBlockedRootFields and with an independent DFS oracle. Non-trivial = the graph has at least one edge; distinct by (schema, current step, query).", nSteps*nSteps, nSteps)
+	c.Rule = fmt.Sprintf("exhaustive: all 2^%d dependency graphs over %d steps (self-loops and cycles included) x 2 orders of each `_dependencies` list x every current step (and `input`) x every root field as target x 4 positions of the read (head, filter, function argument, nested group), plus the field spelled in another letter case (never available) and read in an argument of a call made on a schema-less value (ParseJSON / RemoveKeysBy* results: a blocked field stays blocked); dangling dependencies and steps without a list; random graphs of up to 12 steps (chains, diamonds, fan-in, cycles). Verdicts compared with the model of getBlockedRootFields and with an independent DFS oracle. Non-trivial = the graph has at least one edge; distinct by (schema, current step, query).", nSteps*nSteps, nSteps)
 	steps := []string{}
 	for i := 1; i <= nSteps; i++ {
 		steps = append(steps, fmt.Sprintf("s%d", i))
@@ -245,6 +245,12 @@ func c15(c *Ctx) {
 					{"filter", "$.input.list[@.x.Equal(" + ref + ")]"},
 					{"argument", "$.input.name.Equal(" + ref + ")"},
 					{"nested-group", "{$.input.name.Equal(\"a\"),{OR," + ref + ".Equal(\"b\")}}"},
+					// the field spelled in another letter case is no declared field: refused whatever the graph
+					{"case-variant", "$." + strings.ToUpper(tgt[:1]) + tgt[1:] + "." + leaf},
+					{"case-variant", "$.input.name.Equal($." + strings.ToUpper(tgt) + "." + leaf + ")"},
+					// arguments of calls made on a value without a schema (what ParseJSON / RemoveKeysBy* return)
+					{"argument-after-schemaless", "$.input.name.ParseJSON().count.Equal(" + ref + ")"},
+					{"argument-after-schemaless", "$.variables.RemoveKeysByPrefix(\"q\").x.AnyOf(\"a\"," + ref + ")"},
 				} {
 					if len(g.steps) <= 4 && pq[0] != "head" && (gi%4 != 0) {
 						continue // all four positions on a quarter of the small graphs, the head on all
@@ -319,6 +325,14 @@ func c15(c *Ctx) {
 			want = "not-available"
 		}
 		cs := map[string]any{"kind": "validate", "query": vc.q, "schema": vc.g.schema(), "current": vc.cur, "target": vc.tgt, "position": vc.pos, "implementation": verdict, "impl_errors": r.Errors, "impl_err": r.Err}
+		if vc.pos == "case-variant" || vc.pos == "argument-after-schemaless" {
+			// impl-only relations: a case variant of a root field is never available; behind a schema-less
+			// value a blocked field stays blocked (an available one may be refused for reasons of typing)
+			if want != "error" && verdict != "error" && (vc.pos == "case-variant" || want == "not-available") && verdict != "not-available" {
+				c.Violation("relation", fmt.Sprintf("current step %s, query %q: root field %s read at position %s must be refused, CueValidate says %s", vc.cur, vc.q, vc.tgt, vc.pos, verdict), cs)
+			}
+			continue
+		}
 		if verdict != want {
 			c.Violation("relation", fmt.Sprintf("current step %s, query %q: root field %s must be %s (dependency closure), CueValidate says %s", vc.cur, vc.q, vc.tgt, want, verdict), cs)
 		}
